@@ -4,6 +4,11 @@ use std::{any::Any, collections::HashMap};
 pub(crate) struct Set {
     /// Registered statics.
     statics: Option<HashMap<StaticKeyId, StaticValue>>,
+
+    /// The order in which the statics were initialized. They are dropped in
+    /// that order, so that destructors which perform modelled operations run
+    /// in the same order in every run of the model.
+    order: Vec<StaticKeyId>,
 }
 
 #[derive(Eq, PartialEq, Hash, Copy, Clone)]
@@ -19,6 +24,7 @@ impl Set {
     pub(crate) fn new() -> Set {
         Set {
             statics: Some(HashMap::new()),
+            order: Vec::new(),
         }
     }
 
@@ -28,12 +34,20 @@ impl Set {
             "lazy_static was not dropped during execution"
         );
         self.statics = Some(HashMap::new());
+        self.order.clear();
     }
 
-    pub(crate) fn drop(&mut self) -> HashMap<StaticKeyId, StaticValue> {
-        self.statics
+    /// Returns the statics in the order in which they were initialized
+    pub(crate) fn drop(&mut self) -> Vec<StaticValue> {
+        let mut statics = self
+            .statics
             .take()
-            .expect("lazy_statics were dropped twice in one execution")
+            .expect("lazy_statics were dropped twice in one execution");
+
+        self.order
+            .drain(..)
+            .filter_map(|key| statics.remove(&key))
+            .collect()
     }
 
     pub(crate) fn get_static<T: 'static>(
@@ -51,15 +65,19 @@ impl Set {
         key: &'static crate::lazy_static::Lazy<T>,
         value: StaticValue,
     ) -> &mut StaticValue {
+        let key = StaticKeyId::new(key);
+
         let v = self
             .statics
             .as_mut()
             .expect("attempted to access lazy_static during shutdown")
-            .entry(StaticKeyId::new(key));
+            .entry(key);
 
         if let std::collections::hash_map::Entry::Occupied(_) = v {
             unreachable!("told to init static, but it was already init'd");
         }
+
+        self.order.push(key);
 
         v.or_insert(value)
     }
